@@ -110,3 +110,28 @@ package nuget
 //@ lemma c20-range-equal [C20] uses c20-equal: forall nr *VersionRange, v1, v2 *Version :: nr != nil && v1 != nil && v2 != nil && wfRange(nr) && (forall i int :: 0 <= i && i < len(nr.constraints) ==> nr.constraints[i].version != nil && (nr.constraints[i].operator == "=" || nr.constraints[i].operator == "!=" || nr.constraints[i].operator == "<" || nr.constraints[i].operator == "<=" || nr.constraints[i].operator == ">" || nr.constraints[i].operator == ">=")) && v1.Compare(v2) == 0 ==> ((forall i int :: 0 <= i && i < len(nr.constraints) ==> nr.constraints[i].matches(v1)) == (forall i int :: 0 <= i && i < len(nr.constraints) ==> nr.constraints[i].matches(v2)))
 // ... and the set a range without != accepts is convex in the order
 //@ lemma c20-range-convex [C20] uses c20-convex: forall nr *VersionRange, a, b, d *Version :: nr != nil && a != nil && b != nil && d != nil && wfRange(nr) && (forall i int :: 0 <= i && i < len(nr.constraints) ==> nr.constraints[i].version != nil && (nr.constraints[i].operator == "=" || nr.constraints[i].operator == "!=" || nr.constraints[i].operator == "<" || nr.constraints[i].operator == "<=" || nr.constraints[i].operator == ">" || nr.constraints[i].operator == ">=") && nr.constraints[i].operator != "!=") && a.Compare(b) <= 0 && b.Compare(d) <= 0 && (forall i int :: 0 <= i && i < len(nr.constraints) ==> nr.constraints[i].matches(a)) && (forall i int :: 0 <= i && i < len(nr.constraints) ==> nr.constraints[i].matches(d)) ==> (forall i int :: 0 <= i && i < len(nr.constraints) ==> nr.constraints[i].matches(b))
+
+// ---- bracket intervals (C05): the comparator pair a bracket range is rewritten to.  in(s) is the text between the brackets.
+//@ spec inner(s string) string = s[1 : len(s)-1]
+//@ spec lo(s string) string = strings.TrimSpace(strings.Split(inner(s), ",")[0])
+//@ spec hi(s string) string = strings.TrimSpace(strings.Split(inner(s), ",")[1])
+//@ func parseInclusiveRange
+//@   requires len(rangeStr) >= 2
+//@   ensures pair: result1 == nil ==> len(strings.Split(inner(rangeStr), ",")) == 2 && len(result0) == 2 && result0[0].operator == ">=" && result0[0].version == e.NewVersion(lo(rangeStr)).0 && result0[1].operator == "<=" && result0[1].version == e.NewVersion(hi(rangeStr)).0   [C05]
+//@   ensures accepts: len(strings.Split(inner(rangeStr), ",")) == 2 && e.NewVersion(lo(rangeStr)).1 == nil && e.NewVersion(hi(rangeStr)).1 == nil ==> result1 == nil   [C05]
+//@ func parseExclusiveRange
+//@   requires len(rangeStr) >= 2
+//@   ensures pair: result1 == nil && lo(rangeStr) != "" && hi(rangeStr) != "" ==> len(result0) == 2 && result0[0].operator == ">" && result0[0].version == e.NewVersion(lo(rangeStr)).0 && result0[1].operator == "<" && result0[1].version == e.NewVersion(hi(rangeStr)).0   [C05]
+//@   ensures one-sided: len(strings.Split(inner(rangeStr), ",")) == 2 && ((lo(rangeStr) == "") != (hi(rangeStr) == "")) ==> result0 == parseMixedRange(e, rangeStr).0 && (result1 == nil) == (parseMixedRange(e, rangeStr).1 == nil)   [C05]
+//@ func parseMixedRange
+//@   requires len(rangeStr) >= 2
+//@   ensures upper-only: len(strings.Split(inner(rangeStr), ",")) == 2 && lo(rangeStr) == "" && hi(rangeStr) != "" && result1 == nil ==> len(result0) == 1 && result0[0].operator == (strings.HasSuffix(rangeStr, "]") ? "<=" : "<") && result0[0].version == e.NewVersion(hi(rangeStr)).0   [C05]
+//@   ensures lower-only: len(strings.Split(inner(rangeStr), ",")) == 2 && lo(rangeStr) != "" && hi(rangeStr) == "" && result1 == nil ==> len(result0) == 1 && result0[0].operator == (strings.HasPrefix(rangeStr, "[") ? ">=" : ">") && result0[0].version == e.NewVersion(lo(rangeStr)).0   [C05]
+//@   ensures both: len(strings.Split(inner(rangeStr), ",")) == 2 && lo(rangeStr) != "" && hi(rangeStr) != "" && result1 == nil ==> len(result0) == 2 && result0[0].operator == (strings.HasPrefix(rangeStr, "[") ? ">=" : ">") && result0[0].version == e.NewVersion(lo(rangeStr)).0 && result0[1].operator == (strings.HasSuffix(rangeStr, "]") ? "<=" : "<") && result0[1].version == e.NewVersion(hi(rangeStr)).0   [C05]
+//@ spec bracketed(s string) bool = (strings.HasPrefix(s, "[") || strings.HasPrefix(s, "(")) && (strings.HasSuffix(s, "]") || strings.HasSuffix(s, ")"))
+//@ func parseRange
+//@   ensures exact: strings.HasPrefix(strings.TrimSpace(rangeStr), "[") && strings.HasSuffix(strings.TrimSpace(rangeStr), "]") && !strings.Contains(strings.TrimSpace(rangeStr), ",") && result1 == nil ==> len(result0) == 1 && result0[0].operator == "=" && result0[0].version == e.NewVersion(strings.TrimSpace(inner(strings.TrimSpace(rangeStr)))).0   [C05]
+//@   ensures inclusive: strings.HasPrefix(strings.TrimSpace(rangeStr), "[") && strings.HasSuffix(strings.TrimSpace(rangeStr), "]") && strings.Contains(strings.TrimSpace(rangeStr), ",") && strings.TrimSpace(rangeStr) != "[]" ==> result0 == parseInclusiveRange(e, strings.TrimSpace(rangeStr)).0 && (result1 == nil) == (parseInclusiveRange(e, strings.TrimSpace(rangeStr)).1 == nil)   [C05]
+//@   ensures exclusive: strings.HasPrefix(strings.TrimSpace(rangeStr), "(") && strings.HasSuffix(strings.TrimSpace(rangeStr), ")") && strings.TrimSpace(rangeStr) != "()" && strings.Contains(strings.TrimSpace(rangeStr), ",") ==> result0 == parseExclusiveRange(e, strings.TrimSpace(rangeStr)).0 && (result1 == nil) == (parseExclusiveRange(e, strings.TrimSpace(rangeStr)).1 == nil)   [C05]
+//@   ensures half-open: ((strings.HasPrefix(strings.TrimSpace(rangeStr), "[") && strings.HasSuffix(strings.TrimSpace(rangeStr), ")")) || (strings.HasPrefix(strings.TrimSpace(rangeStr), "(") && strings.HasSuffix(strings.TrimSpace(rangeStr), "]"))) && strings.Contains(strings.TrimSpace(rangeStr), ",") ==> result0 == parseMixedRange(e, strings.TrimSpace(rangeStr)).0 && (result1 == nil) == (parseMixedRange(e, strings.TrimSpace(rangeStr)).1 == nil)   [C05]
+//@   ensures minimum: !bracketed(strings.TrimSpace(rangeStr)) && !strings.Contains(strings.TrimSpace(rangeStr), ",") && result1 == nil ==> len(result0) == 1 && result0[0].operator == ">=" && result0[0].version == e.NewVersion(strings.TrimSpace(rangeStr)).0   [C05]
